@@ -2009,7 +2009,10 @@ func (r stack) traverse(indices ...int) (slice any, ok, done bool) {
 				// instance is a Stack/Stack alias, or Condition/Condition alias
 				// containing a Stack/Stack alias value.
 				if slice, ok, done = r.traverseAssertionHandler(instance, i, indices...); !done {
-					continue
+					// the path could not be followed beyond this
+					// element: do not apply the next index to this
+					// same stack (that would descend into a sibling).
+					slice, ok = nil, false
 				}
 			}
 			break
